@@ -42,11 +42,43 @@ EXPECT = {"hed_leaf_not_string": TYPE_CODES, "hed_entry_not_str_or_map": TYPE_CO
           "self_ref": {"SIDECAR_BRACES_INVALID"}, "nested_ref": {"SIDECAR_BRACES_INVALID"}}
 
 
+class FormDiffers(Exception):
+    pass
+
+
 def run_validate(doc):
+    """Validate the document given as an open text stream and, in rotation, as a file name, a one-element list of
+    file names, or two files holding the first and the second half of its columns: the verdict must be the same."""
+    import os
+    import tempfile
+    import zlib
     from hed.models.sidecar import Sidecar
     text = json.dumps(doc)
     sc = Sidecar(io.StringIO(text), name="generated")
-    return sc.validate(hedenv.schema(VERSION))
+    issues = sc.validate(hedenv.schema(VERSION))
+    form = ["stream", "name", "list", "two-files"][zlib.crc32(text.encode()) % 4]
+    if form == "two-files" and len(doc) < 2:
+        form = "name"
+    if form != "stream":
+        paths = []
+        try:
+            keys = list(doc)
+            pieces = [doc] if form != "two-files" else [{k: doc[k] for k in keys[:len(keys) // 2]},
+                                                        {k: doc[k] for k in keys[len(keys) // 2:]}]
+            for piece in pieces:
+                fd, pth = tempfile.mkstemp(suffix="_events.json", dir=os.environ.get("HOME"))
+                with os.fdopen(fd, "w", encoding="utf-8") as fp:
+                    json.dump(piece, fp)
+                paths.append(pth)
+            other = Sidecar(paths[0] if form == "name" else paths).validate(hedenv.schema(VERSION))
+        finally:
+            for pth in paths:
+                os.unlink(pth)
+        a = sorted((i["code"], i["severity"]) for i in issues)
+        b = sorted((i["code"], i["severity"]) for i in other)
+        if a != b:
+            raise FormDiffers(f"as stream {a} as {form} {b}")
+    return issues
 
 
 def well_formed(issues, out):
@@ -81,6 +113,8 @@ def oracle_json(doc):
     out.classes = tuple(sorted("col:" + k for k in kinds))
     try:
         issues = run_validate(doc)
+    except FormDiffers as exc:
+        return out.bad("verdict-depends-on-how-the-sidecar-is-given", f"{json.dumps(doc)[:300]}: {exc}")
     except Exception as exc:  # totality: no exception of any type
         from vlib.core import crash_signature
         sig = crash_signature(exc, "validate-raises") or f"validate-raises:{type(exc).__name__}"
@@ -139,7 +173,10 @@ def oracle_valid(case):
     out.nontrivial = case["ncols"] >= 2 or case["nrefs"] > 0
     out.classes = tuple(c for c, ok in (("refs", case["nrefs"] > 0), ("cols>=3", case["ncols"] >= 3),
                                         ("definitions", case.get("with_defs", False))) if ok)
-    issues = run_validate(case["doc"])
+    try:
+        issues = run_validate(case["doc"])
+    except FormDiffers as exc:
+        return out.bad("verdict-depends-on-how-the-sidecar-is-given", f"{json.dumps(case['doc'])[:300]}: {exc}")
     if not well_formed(issues, out):
         return out
     for i in issues:
@@ -253,7 +290,10 @@ def fault_strategy(draw):
 
 def oracle_fault(case):
     out = Outcome(nontrivial=True, classes=("fault:" + case["fault"],))
-    issues = run_validate(case["doc"])
+    try:
+        issues = run_validate(case["doc"])
+    except FormDiffers as exc:
+        return out.bad("verdict-depends-on-how-the-sidecar-is-given", f"{json.dumps(case['doc'])[:300]}: {exc}")
     if not well_formed(issues, out):
         return out
     codes = {i["code"] for i in issues if i["severity"] == 1}
